@@ -53,7 +53,9 @@ func build(v variant) *explore.Scenario {
 	return &explore.Scenario{
 		Name:          v.name,
 		MaxBoundQuick: v.maxQuick,
-		Configure:     func(s *vrt.Sched) { s.RandChoose = true },
+		// time may pass at any scheduling point: a timer the code under test arms (there is none in the unchanged tree) may
+		// fire while a lookup is still on its way
+		Configure: func(s *vrt.Sched) { s.RandChoose = true; s.OfferTimers = true },
 		Build: func(x *explore.Exec) func(vrt.EndReason) *explore.Violation {
 			fakes.Reset()
 			var knows func(a, b uint64) bool
